@@ -85,6 +85,8 @@ class Run:
         path, info = dump.dump(crate)
         self.mir_info.append(info)
         enums = dict(ENUMS)
+        import layout
+        enums.update(layout.all_enums())          # every enum of the three crates, variant order read from the current source
         for name, rel in SOURCE_ENUMS:
             o = enum_order_from_source(name, rel)
             if o: enums[name] = o
